@@ -193,6 +193,103 @@ pub fn generate(prop: &str, thorough: bool, rng: &mut Rng) -> Case {
             }
             clients.push(ops);
         }
+        "C12" => {
+            cfg.insert("comp".into(), 0);
+            let keys = 4 + rng.below(3) as u64;
+            cfg.insert("keys".into(), keys as i64);
+            cfg.insert("mem_cap".into(), 2 + rng.below(3) as i64);
+            cfg.insert("flush_on_close".into(), rng.below(2) as i64);
+            cfg.insert("blocks".into(), if rng.chance(1, 2) { 4 + rng.below(3) as i64 } else { 8 + rng.below(8) as i64 });
+            cfg.insert("clean_thr".into(), 1 + rng.below(2) as i64);
+            cfg.insert("picker".into(), if rng.chance(1, 2) { 1 } else { 0 });
+            fit_buffers(&mut cfg, rng, false);
+            let inmem_mod = if rng.chance(1, 2) { 3 } else { 0 };
+            let ondisk_mod = if rng.chance(1, 2) { 4 } else { 0 };
+            cfg.insert("inmem_mod".into(), inmem_mod as i64);
+            cfg.insert("ondisk_mod".into(), ondisk_mod as i64);
+            match rng.below(6) {
+                0 => {
+                    cfg.insert("admit_mode".into(), 1);
+                }
+                1 => {
+                    cfg.insert("admit_mode".into(), 2);
+                }
+                2 => {
+                    cfg.insert("reject_mod".into(), 5);
+                }
+                _ => {}
+            }
+            let loc = move |k: u64| -> u8 {
+                if inmem_mod > 0 && k % inmem_mod == 1 {
+                    1
+                } else if ondisk_mod > 0 && k % ondisk_mod == 2 {
+                    2
+                } else {
+                    0
+                }
+            };
+            let mix = Mix { insert: 35, writer: 0, get: 25, fetch: 12, contains: 0, remove: 3, clear: 0, evict_all: 8, wait: 10, reopen: 2, yld: 3 };
+            let n = (6 + rng.below(20)) * scale;
+            let classes = if rng.chance(1, 3) { vec![1, 4] } else { vec![1, 1, 0] };
+            let mut ops = gen_ops(rng, n, keys, &mix, &classes, &loc);
+            for op in ops.iter_mut() {
+                if let Op::Insert { loc: 2, hold, .. } = op {
+                    *hold = false;
+                }
+            }
+            // held fetches: the origin must wait for the disk lookup
+            if rng.chance(1, 3) {
+                let at = rng.below(ops.len() + 1);
+                ops.insert(at, Op::Ctl { what: 20, arg: rng.below(keys as usize) as u64 });
+            }
+            ops.push(Op::Wait);
+            if rng.chance(1, 2) {
+                ops.push(Op::Close);
+            }
+            clients.push(ops);
+        }
+        "C15" => {
+            let keys = 4 + rng.below(4) as u64;
+            cfg.insert("keys".into(), keys as i64);
+            cfg.insert("fresh_keys".into(), 3);
+            cfg.insert("mem_cap".into(), 2 + rng.below(6) as i64);
+            cfg.insert("flush_on_close".into(), if rng.chance(3, 4) { 1 } else { 0 });
+            cfg.insert("blocks".into(), 14 + rng.below(8) as i64);
+            cfg.insert("block_pages".into(), 16);
+            cfg.insert("buf_pages".into(), 48 * cfg["flushers"]);
+            let inmem_mod = if rng.chance(1, 3) { 3 } else { 0 };
+            cfg.insert("inmem_mod".into(), inmem_mod as i64);
+            cfg.insert("ondisk_mod".into(), 0);
+            if rng.chance(1, 5) {
+                cfg.insert("reject_mod".into(), 5);
+            }
+            let loc = move |k: u64| -> u8 { if inmem_mod > 0 && k % inmem_mod == 1 { 1 } else { 0 } };
+            let mix = Mix { insert: 45, writer: 0, get: 25, fetch: 8, contains: 0, remove: 6, clear: 0, evict_all: 6, wait: 6, reopen: 0, yld: 4 };
+            let n = rng.below(20) * scale;
+            let classes = vec![0, 1, 1, 2, 4];
+            let mut ops = gen_ops(rng, n, keys, &mix, &classes, &loc);
+            for op in ops.iter_mut() {
+                if let Op::Insert { hold, .. } = op {
+                    *hold = false;
+                }
+                if let Op::Get { hold, .. } = op {
+                    *hold = false;
+                }
+            }
+            ops.push(Op::Close);
+            // writes after close only touch fresh keys (they must be ignored, not corrupt anything)
+            let extra = rng.below(4);
+            for _ in 0..extra {
+                let k = keys + rng.below(3) as u64;
+                ops.push(match rng.below(3) {
+                    0 => Op::Insert { k, ver: 0, w: 1, loc: 0, hold: false },
+                    1 => Op::Remove { k },
+                    _ => Op::Close,
+                });
+            }
+            ops.push(Op::Reopen);
+            clients.push(ops);
+        }
         _ => panic!("hybgen: unknown property {prop}"),
     }
     Case { property: prop.to_string(), scenario: "hyb".into(), cfg, clients }
